@@ -281,6 +281,237 @@ static void function_level(void) {
   }
 }
 
+
+/* ======================= run level: hooked real passes ======================= */
+#define REC_CAP 1500 /* records per kind and run op */
+static int rec_count[8], rec_total, rec_on[8];
+static const char *kinds[] = {"split_trial", "split_edge", "collapse_edge", "swap_tri_edge",
+                              "smooth_edge", "smooth_tri", "smooth_tet", "cavity_replace"};
+
+static uint64_t fnv(uint64_t h, const void *p, size_t n) {
+  const unsigned char *c = (const unsigned char *)p;
+  size_t i;
+  for (i = 0; i < n; i++) {
+    h ^= c[i];
+    h *= 1099511628211ULL;
+  }
+  return h;
+}
+#define FNV0 1469598103934665603ULL
+
+static int glob_cmp(const void *a, const void *b) {
+  REF_GLOB x = *(const REF_GLOB *)a, y = *(const REF_GLOB *)b;
+  return x < y ? -1 : (x > y ? 1 : 0);
+}
+
+/* structural hash of the whole grid: every valid vertex (slot, global id, xyz, metric and log-metric bits), every
+   cell of every group (as a multiset: the sum of per-cell hashes), the abstract id pool (unused list united with
+   [new_n_global, infinity) in canonical form) and old_n_global */
+static uint64_t grid_hash(REF_GRID g) {
+  REF_NODE ref_node = ref_grid_node(g);
+  REF_CELL ref_cell;
+  REF_INT node, group, cell, nodes[REF_CELL_MAX_SIZE_PER], i, nu;
+  uint64_t total = 0, h;
+  REF_GLOB *un, new_n;
+  each_ref_node_valid_node(ref_node, node) {
+    REF_GLOB gl = ref_node_global(ref_node, node);
+    h = fnv(FNV0, &node, sizeof(node));
+    h = fnv(h, &gl, sizeof(gl));
+    h = fnv(h, &(ref_node->real[REF_NODE_REAL_PER * node]), sizeof(REF_DBL) * REF_NODE_REAL_PER);
+    total += h;
+  }
+  each_ref_grid_all_ref_cell(g, group, ref_cell) {
+    each_ref_cell_valid_cell_with_nodes(ref_cell, cell, nodes) {
+      h = fnv(FNV0 + 7 * (uint64_t)(group + 1), nodes, sizeof(REF_INT) * (size_t)ref_cell_size_per(ref_cell));
+      total += h;
+    }
+  }
+  nu = ref_node_n_unused(ref_node);
+  un = (REF_GLOB *)malloc(sizeof(REF_GLOB) * (size_t)(nu + 1));
+  for (i = 0; i < nu; i++) un[i] = ref_node->unused_global[i];
+  qsort(un, (size_t)nu, sizeof(REF_GLOB), glob_cmp);
+  new_n = ref_node->new_n_global;
+  if (REF_EMPTY == new_n) new_n = ref_node_n(ref_node);
+  while (nu > 0 && un[nu - 1] == new_n - 1 && (nu < 2 || un[nu - 2] != un[nu - 1])) {
+    nu--;
+    new_n--;
+  }
+  h = fnv(FNV0 + 99, un, sizeof(REF_GLOB) * (size_t)nu);
+  h = fnv(h, &new_n, sizeof(new_n));
+  h = fnv(h, &(ref_node->old_n_global), sizeof(REF_GLOB));
+  free(un);
+  return total + h;
+}
+
+static REF_INT star_cell[3][4096], star_n[3];
+static REF_INT star_node[16384], star_nn;
+
+static void add_node(REF_INT v) {
+  REF_INT i;
+  for (i = 0; i < star_nn; i++)
+    if (star_node[i] == v) return;
+  if (star_nn < 16384) star_node[star_nn++] = v;
+}
+
+static void collect_star(REF_GRID g, int n, const int *ints) {
+  REF_CELL cells[3];
+  REF_INT k, j, i, item, cell, cn;
+  cells[0] = ref_grid_tet(g);
+  cells[1] = ref_grid_tri(g);
+  cells[2] = ref_grid_edg(g);
+  star_nn = 0;
+  for (k = 0; k < 3; k++) {
+    star_n[k] = 0;
+    for (j = 0; j < n; j++) {
+      if (ints[j] < 0) continue;
+      each_ref_cell_having_node(cells[k], ints[j], item, cell) {
+        int have = 0;
+        for (i = 0; i < star_n[k]; i++)
+          if (star_cell[k][i] == cell) have = 1;
+        if (!have && star_n[k] < 4096) star_cell[k][star_n[k]++] = cell;
+      }
+    }
+    for (i = 0; i < star_n[k]; i++)
+      for (cn = 0; cn < ref_cell_node_per(cells[k]); cn++) add_node(ref_cell_c2n(cells[k], cn, star_cell[k][i]));
+  }
+  for (j = 0; j < n; j++)
+    if (ints[j] >= 0 && ref_node_valid(ref_grid_node(g), ints[j])) add_node(ints[j]);
+}
+
+static void my_op(const char *phase, const char *kind, void *object, int n, const int *ints) {
+  REF_GRID g;
+  REF_NODE ref_node;
+  REF_CELL cells[3];
+  static const char *gname[] = {"T", "R", "E"};
+  int kk, k, i, j, is_int;
+  REF_INT *rows;
+  for (kk = 0; kk < 8; kk++)
+    if (0 == strcmp(kind, kinds[kk])) break;
+  if (kk == 8) return;
+  if (0 == strcmp(phase, "begin")) {
+    rec_on[kk] = (rec_count[kk] < REC_CAP);
+    if (rec_on[kk]) rec_count[kk]++;
+  }
+  if (!rec_on[kk]) return;
+  g = (7 == kk) ? ref_cavity_grid((REF_CAVITY)object) : (REF_GRID)object;
+  ref_node = ref_grid_node(g);
+  cells[0] = ref_grid_tet(g);
+  cells[1] = ref_grid_tri(g);
+  cells[2] = ref_grid_edg(g);
+  collect_star(g, n, ints);
+  rec_total++;
+  fprintf(out, "rec %s %s %d %d %d twod=%d hash=%016llx valid=", phase, kind, ints[0], n > 1 ? ints[1] : -1,
+          n > 2 ? ints[2] : -1, ref_grid_twod(g) ? 1 : 0, (unsigned long long)grid_hash(g));
+  for (j = 0; j < 3; j++)
+    fprintf(out, "%d", (j < n && ints[j] >= 0 && ref_node_valid(ref_node, ints[j])) ? 1 : 0);
+  fprintf(out, " nu=%d utop=%lld oldN=%lld newN=%lld | N", ref_node_n_unused(ref_node),
+          ref_node_n_unused(ref_node) > 0 ? (long long)ref_node->unused_global[ref_node_n_unused(ref_node) - 1] : -1LL,
+          (long long)ref_node->old_n_global, (long long)ref_node->new_n_global);
+  for (i = 0; i < star_nn; i++) {
+    REF_INT v = star_node[i];
+    if (!ref_node_valid(ref_node, v)) continue; /* a cell referencing it shows up in localValid */
+    is_int = 0;
+    for (j = 0; j < n; j++)
+      if (ints[j] == v) is_int = 1;
+    fprintf(out, " %d:%lld", v, (long long)ref_node_global(ref_node, v));
+    for (k = 0; k < (is_int ? REF_NODE_REAL_PER : 3); k++) {
+      fputc(':', out);
+      h_pf(out, ref_node->real[k + REF_NODE_REAL_PER * v]);
+    }
+  }
+  for (k = 0; k < 3; k++) {
+    int len = ref_cell_size_per(cells[k]);
+    fprintf(out, " | %s", gname[k]);
+    rows = (REF_INT *)malloc(sizeof(REF_INT) * (size_t)len * (size_t)(star_n[k] + 1));
+    for (i = 0; i < star_n[k]; i++)
+      for (j = 0; j < len; j++) rows[j + len * i] = ref_cell_c2n(cells[k], j, star_cell[k][i]);
+    print_rows(rows, star_n[k], len);
+    free(rows);
+  }
+  fprintf(out, "\n");
+}
+
+static unsigned long long lcg_state;
+static double lcg(void) { /* deterministic jitter in [-1,1) */
+  lcg_state = lcg_state * 6364136223846793005ULL + 1442695040888963407ULL;
+  return ((double)((lcg_state >> 33) & 0xffffff) / (double)0x800000) - 1.0;
+}
+
+/* run <dim 2|3> <n> <jitter seed> <metric iso|aniso|lin|coarse> <h hex> <passes e.g. acsmw...> */
+static void run_level(void) {
+  while (h_next(stdin)) {
+    REF_GRID g = NULL;
+    REF_NODE ref_node;
+    REF_INT node, nn;
+    REF_STATUS s = REF_SUCCESS;
+    REF_BOOL all_done;
+    double h, dx;
+    const char *p;
+    int dim, k;
+    if (!(is_op("run", 7) && all_ints(1, 3) && is_hex16(h_w[5]))) {
+      fprintf(out, "bad-op\n");
+      continue;
+    }
+    dim = (int)h_i(h_w[1]);
+    nn = (REF_INT)h_i(h_w[2]);
+    h = h_f(h_w[5]);
+    if ((dim != 2 && dim != 3) || nn < 2 || nn > 12 || !(h > 1e-3 && h < 1e3) || strlen(h_w[6]) > 24) {
+      fprintf(out, "bad-op\n");
+      continue;
+    }
+    if (3 == dim)
+      s = ref_fixture_tet_brick_args_grid(&g, ref_mpi, 0.0, 1.0, 0.0, 1.0, 0.0, 1.0, nn, nn, nn);
+    else
+      s = ref_fixture_twod_brick_grid(&g, ref_mpi, nn);
+    if (REF_SUCCESS != s) {
+      fprintf(out, "done fixture %s\n", h_status(s));
+      continue;
+    }
+    ref_node = ref_grid_node(g);
+    lcg_state = (unsigned long long)h_i(h_w[3]) * 2654435761ULL + 12345ULL;
+    dx = 1.0 / (double)(nn - 1);
+    each_ref_node_valid_node(ref_node, node) {
+      double x = ref_node_xyz(ref_node, 0, node), y = ref_node_xyz(ref_node, 1, node),
+             z = ref_node_xyz(ref_node, 2, node);
+      double hx = h, hy = h, hz = h;
+      int interior = x > 1e-9 && x < 1 - 1e-9 && y > 1e-9 && y < 1 - 1e-9 && (2 == dim || (z > 1e-9 && z < 1 - 1e-9));
+      if (interior && 0 != h_i(h_w[3])) {
+        ref_node_xyz(ref_node, 0, node) += 0.2 * dx * lcg();
+        ref_node_xyz(ref_node, 1, node) += 0.2 * dx * lcg();
+        if (3 == dim) ref_node_xyz(ref_node, 2, node) += 0.2 * dx * lcg();
+      }
+      if (0 == strcmp(h_w[4], "aniso")) {
+        hy = 4.0 * h;
+        hz = 2.0 * h;
+      } else if (0 == strcmp(h_w[4], "lin")) {
+        hx = hy = hz = h * (0.3 + 1.4 * x);
+      } else if (0 == strcmp(h_w[4], "bl")) {
+        hy = h * (0.1 + 2.0 * y);
+      }
+      if (2 == dim) hz = 1.0;
+      ref_node_metric_form(ref_node, node, 1.0 / (hx * hx), 0, 0, 1.0 / (hy * hy), 0, 1.0 / (hz * hz));
+    }
+    for (k = 0; k < 8; k++) rec_count[k] = rec_on[k] = 0;
+    rec_total = 0;
+    ref_verif_op_fcn = my_op;
+    for (p = h_w[6]; *p && REF_SUCCESS == s; p++) {
+      switch (*p) {
+        case 'a': s = ref_adapt_pass(g, &all_done); break;
+        case 's': s = ref_split_pass(g); break;
+        case 'c': s = ref_collapse_pass(g); break;
+        case 'w': s = (2 == dim) ? ref_swap_tri_pass(g) : ref_swap_pass(g); break;
+        case 'm': s = ref_smooth_pass(g); break;
+        default: break;
+      }
+    }
+    ref_verif_op_fcn = NULL;
+    fprintf(out, "done %s nrec=%d nnode=%d ntet=%d ntri=%d split_edge=%d collapse_edge=%d swap=%d cavity=%d\n",
+            h_status(s), rec_total, ref_node_n(ref_node), ref_cell_n(ref_grid_tet(g)), ref_cell_n(ref_grid_tri(g)),
+            rec_count[1], rec_count[2], rec_count[3], rec_count[7]);
+    ref_grid_free(g);
+  }
+}
+
 int main(int argc, char **argv) {
   out = fdopen(dup(1), "w");
   if (!out || !freopen("/dev/null", "w", stdout)) return 3;
@@ -292,9 +523,10 @@ int main(int argc, char **argv) {
     }
   }
   reset();
-  (void)argc;
-  (void)argv;
-  function_level();
+  if (argc > 1 && 0 == strcmp(argv[1], "run"))
+    run_level();
+  else
+    function_level();
   fflush(out);
   {
     char cwd[256];
